@@ -59,8 +59,8 @@ func newRecKey(secret []byte, led *ledger) recKey {
 	return recKey{inner: crypto.GenPrivKeyEd25519FromSecret(secret), led: led, mu: new(sync.Mutex), log: new([]signRec)}
 }
 
-func (k recKey) Bytes() []byte          { return k.inner.Bytes() }
-func (k recKey) PubKey() crypto.PubKey  { return k.inner.PubKey() }
+func (k recKey) Bytes() []byte         { return k.inner.Bytes() }
+func (k recKey) PubKey() crypto.PubKey { return k.inner.PubKey() }
 func (k recKey) Equals(o crypto.PrivKey) bool {
 	if ok, is := o.(recKey); is {
 		return k.inner.Equals(ok.inner)
